@@ -143,6 +143,9 @@ func envelopeEvent(c *ctx) M {
 		k2 := append([]byte{}, kek...)
 		k2[c.rnd.Intn(len(k2))] ^= 1 << uint(c.rnd.Intn(8))
 		try("wrongkek", k2, env.AESKey)
+		// a ciphertext with stray bytes appended (1..9) or with its tail cut off (1..17 bytes)
+		try("strayed", kek, append(append([]byte{}, env.AESKey...), c.bytesN(1+c.rnd.Intn(9))...))
+		try("cut", kek, append([]byte{}, env.AESKey[:len(env.AESKey)-1-c.rnd.Intn(17)]...))
 	}
 	return ev
 }
